@@ -515,11 +515,12 @@ theorem SI_connectClient {c : Conn} (h : SI c) : SI (connectClient c).1 := by
   unfold connectClient
   split
   · exact h
-  · refine SI_ite h ?_
-    simp only
-    split
-    · exact SI_connConnect h _ _
-    · exact SI_connConnect (SI_smInit h) _ _
+  · split
+    · exact h
+    · simp only
+      split
+      · exact SI_connConnect h _ _
+      · exact SI_connConnect (SI_smInit h) _ _
 
 theorem SI_connectComponent {c : Conn} (h : SI c) : SI (connectComponent c).1 := by
   unfold connectComponent
